@@ -559,7 +559,7 @@ def run(ctx):
     ctx.tlc("EqArith_MC", "EqArith_MC_inv_%s.cfg" % ("q" if ctx.quick else "t"), timeout=1500)
     t0 = _t(ctx, "invariants", t0)
     # 2. all histories of the generation slice, replayed
-    _spec_to_code(ctx, "gen_q" if ctx.quick else "gen_t", 5000 if ctx.quick else 200000, gen_actions,
+    _spec_to_code(ctx, "gen_q" if ctx.quick else "gen_t", 5000 if ctx.quick else 150000, gen_actions,
                   MODES if ctx.quick else ("frac", "frac-rmul", "sym", "frac", "sym-int", "mix", "frac-np"))
     t0 = _t(ctx, "histories", t0)
     # 3. elimination for every pair of net coefficients in -6..6 \ {0}, species on one or both sides
@@ -567,7 +567,7 @@ def run(ctx):
     ctx.exhaustive = not ctx.quick
     t0 = _t(ctx, "elimination", t0)
     # 4. seeded longer histories judged by TLC
-    _code_to_spec(ctx, 800 if ctx.quick else 20000)
+    _code_to_spec(ctx, 800 if ctx.quick else 12000)
     _t(ctx, "seeded", t0)
 
 
